@@ -139,6 +139,7 @@ class FnContract:
     ghost: object = None  # (model) -> dict initial ghost state
     ghost_asserts: dict = field(default_factory=dict)
     shifts: str = r"^$"  # regex over constant names used as instantiation shifts
+    units: tuple = ()  # unit sizes (e.g. sector size): byte-index skolems are also instantiated at their unit quotient
     case: str = ""
     allow_any_exception: bool = False
     mode: str = ""  # free-form label ("functional" / "termination")
